@@ -1,6 +1,9 @@
 package interp
 
-// Ordered association-list map, deterministic iteration, symbolic-key aware.
+// Ordered association-list map: deterministic iteration (needed for
+// prefix re-execution and for replay), symbolic-key aware. A key comparison
+// that is symbolic becomes a branch, so after any operation the entries are
+// pairwise distinct under the path condition and len is concrete.
 
 import (
 	"go/types"
@@ -17,12 +20,13 @@ type entry struct {
 }
 
 type hashmap struct {
+	ex      *Explorer
 	keyType types.Type
 	ents    []*entry
 }
 
-func makeMap(kt types.Type, reserve int64) value {
-	return &hashmap{keyType: kt}
+func makeMap(ex *Explorer, kt types.Type, reserve int64) value {
+	return &hashmap{ex: ex, keyType: kt}
 }
 
 func (m *hashmap) find(k value) int {
@@ -30,7 +34,14 @@ func (m *hashmap) find(k value) int {
 		return -1
 	}
 	for i, e := range m.ents {
-		if EX.branch(eqv(m.keyType, k, e.key)) {
+		c := eqv(m.keyType, k, e.key)
+		if b, ok := c.(bool); ok {
+			if b {
+				return i
+			}
+			continue
+		}
+		if m.ex.branch(c) {
 			return i
 		}
 	}
@@ -51,6 +62,9 @@ func (m *hashmap) lookup(k value) value {
 }
 
 func (m *hashmap) insert(k value, v value) {
+	if m == nil {
+		panic("target:assignment to entry in nil map")
+	}
 	if i := m.find(k); i >= 0 {
 		m.ents[i].value = v
 		return
@@ -77,4 +91,17 @@ func (it *hashmapIter) next() tuple {
 	e := it.ents[it.i]
 	it.i++
 	return []value{true, e.key, e.value}
+}
+
+func (m *hashmap) iter() *hashmapIter {
+	if m == nil {
+		return &hashmapIter{}
+	}
+	ents := append([]*entry{}, m.ents...)
+	if m.ex != nil && m.ex.cfg.ReverseMaps {
+		for i, j := 0, len(ents)-1; i < j; i, j = i+1, j-1 {
+			ents[i], ents[j] = ents[j], ents[i]
+		}
+	}
+	return &hashmapIter{ents: ents}
 }
